@@ -491,6 +491,35 @@ theorem writeRecord_changes_of_not_reaches (cfg : Cfg) (prev : Option Nat) (r : 
   unfold writeRecord
   simp [h]
 
+/-! ## duplicate positions: once a record at `p` has been processed, no further record at `p` is (round 10) -/
+
+theorem reaches_false_of_prev (cfg : Cfg) (p : Nat) (r : Record) (h : r.pos = p) : reaches cfg (some p) r = false := by
+  simp [reaches, h]
+
+theorem writeRecord_prev_of_reaches (cfg : Cfg) (prev : Option Nat) (r : Record) (h : reaches cfg prev r = true) :
+    (writeRecord cfg prev r).prev = some r.pos := by
+  simp [writeRecord, h]
+
+theorem writeRecord_prev_of_not_reaches (cfg : Cfg) (prev : Option Nat) (r : Record) (h : reaches cfg prev r = false) :
+    (writeRecord cfg prev r).prev = prev := by
+  simp [writeRecord, h]
+
+/-- `prev = some p` (whatever `p` is, 0 included) and only records at `p` up to index `j`: record `j` is not reached -/
+theorem reachFlags_same_pos (cfg : Cfg) (p : Nat) (rs : List Record) (j : Nat) (hj : j < rs.length)
+    (hsame : ∀ k, k ≤ j → ∀ r, rs[k]? = some r → r.pos = p) :
+    (reachFlags cfg (some p) rs)[j]? = some false := by
+  induction rs generalizing j with
+  | nil => simp at hj
+  | cons r rest ih =>
+    have hr : r.pos = p := hsame 0 (Nat.zero_le _) r (by simp)
+    have hnr : reaches cfg (some p) r = false := reaches_false_of_prev cfg p r hr
+    have hprev : (writeRecord cfg (some p) r).prev = some p := writeRecord_prev_of_not_reaches cfg _ r hnr
+    cases j with
+    | zero => simp [reachFlags, hnr]
+    | succ j' =>
+      simp only [reachFlags, List.getElem?_cons_succ, hprev]
+      exact ih j' (by simpa using hj) (fun k hk r' hr' => hsame (k + 1) (by omega) r' (by simpa using hr'))
+
 /-! ## text of a sample column -/
 
 theorem renderEntries_append (fmt : List String) (k : String) (c : Call) (hk : k ≠ "GT") :
